@@ -3,7 +3,7 @@ plus token-level mutations (the *malformed stream*).  Every choice comes from
 the `random.Random` passed in."""
 import random
 
-from items import (COMMA, JUNK, PA, Attr, Body, Field, Gen, I, Ident, Item, MList, MNameValue,
+from items import (COMMA, JUNK, PA, respell, Attr, Body, Field, Gen, I, Ident, Item, MList, MNameValue,
                    MPathM, P, Param, Variant, metas_body, traits_body)
 
 STD_TRAITS = ['Clone', 'Copy', 'Debug', 'Default', 'Eq', 'Hash', 'Ord', 'PartialEq', 'PartialOrd']
@@ -322,8 +322,9 @@ def gen_item(rng, zeroize_ok=True):
         attrs.append(Attr('dw', metas_body([MPathM('skip_inner')])))
     if item_inc or (kind == 'enum' and incomparable_wanted and chance(rng, 0.15)):
         attrs.insert(rng.randrange(len(attrs) + 1), Attr('dw', metas_body([MPathM('incomparable')])))
-    return Item(kind, ident, params, preds, preds_trailing, attrs, variants,
+    it = Item(kind, ident, params, preds, preds_trailing, attrs, variants,
                 pick(rng, ['', '', 'pub ', 'pub(crate) ']))
+    return respell(rng, it)
 
 
 # ---------------------------------------------------------------- malformed stream
